@@ -909,6 +909,7 @@ LARGE_QUICK = [
     ("century-monthly", dict(slice_sizes=[2400], n_evals=2, start=(1935, 1))),
     ("wide-rows", dict(slice_sizes=[210], n_evals=70)),
     ("many-slices", dict(slice_sizes=[1] * 2200, limit=2 ** 53)),
+    ("many-other-slices", dict(slice_sizes=[1] * 2200, start=(2010, 1))),     # > 4096 distinct Metadata in this process
 ]
 LARGE_THOROUGH = [
     ("5x1024+1", dict(slice_sizes=[1024, 512, 256, 1, 2048, 1280], alias_every=3)),
